@@ -4,6 +4,7 @@ order, fusedness, fuel sufficiency, and agreement of the two unquoting paths.
 Used by Props/C17.
 -/
 import CoapLite.Model.LinkFormat
+import CoapLite.Lemmas.LinkBasic
 
 namespace CoapLite.Link
 
@@ -17,13 +18,407 @@ def Sl.stop (x : Sl) : Nat := x.off + x.s.length
 /-- the literal `""` yielded for an attribute without '=' -/
 def IsEmptyLit (x : Sl) : Prop := x.s = []
 
+namespace P
+
+/-! ### unquoting, slices -/
+
+theorem unqQuoted_noesc (rest : List Char) (h : '\\' ∉ rest) :
+    unqQuoted rest = rest.takeWhile (· ≠ '"') := by
+  induction rest with
+  | nil => simp [unqQuoted]
+  | cons c cs ih =>
+    have hc : c ≠ '\\' := fun e => h (by simp [e])
+    have hcs : '\\' ∉ cs := fun e => h (by simp [e])
+    unfold unqQuoted
+    by_cases h1 : c = '"'
+    · simp [h1]
+    · simp [h1, hc, ih hcs]
+
+theorem isSlice_iff (input : List Char) (y : Sl) : IsSlice input y ↔ Sub y ⟨0, input⟩ := by
+  constructor
+  · rintro ⟨h1, h2⟩
+    refine ⟨input.take y.off, input.drop (y.off + y.s.length), ?_, ?_⟩
+    · show input = _
+      have h3 := List.take_append_drop y.s.length (input.drop y.off)
+      rw [← h2, List.drop_drop] at h3
+      rw [List.append_assoc, h3, List.take_append_drop]
+    · simp [List.length_take]; omega
+  · rintro ⟨pre, post, e, o⟩
+    simp at e o
+    subst e
+    constructor
+    · simp; omega
+    · rw [o]; simp
+
+/-! ### link iterator -/
+
+def lkAfter (inner : Sl) : Sl := inner.drop (inner.s.takeWhile isAsciiWs).length
+def lkRef (inner : Sl) : Sl := (lkAfter inner).drop 1
+def lkN (inner : Sl) : Nat := scanGt (lkRef inner).s
+def lkTarget (inner : Sl) : Sl := ((lkRef inner).take (lkN inner)).trimEnd (· = '>')
+def lkKeys (inner : Sl) : Sl := (lkRef inner).drop (lkN inner)
+def lkM (inner : Sl) : Nat := scanSep ',' (lkKeys inner).s false
+def lkAttrs (inner : Sl) : Sl :=
+  (((lkKeys inner).take (lkM inner)).trimEnd (· = ',')).trimBoth (· = ';')
+def lkNext (inner : Sl) : Sl := (lkKeys inner).drop (lkM inner)
+def lkEmpty (inner : Sl) : Sl := { off := inner.off + inner.s.length, s := [] }
+
+theorem linkNext_eq (inner : Sl) : linkNext inner =
+    if inner.s.isEmpty then (none, inner)
+    else match (lkAfter inner).s with
+      | [] => (none, lkEmpty inner)
+      | c :: _ =>
+        if c ≠ '<' then (some .error, lkEmpty inner)
+        else (some (.link (lkTarget inner) (lkAttrs inner)), lkNext inner) := rfl
+
+theorem linkNext_cases (inner : Sl) :
+    (linkNext inner).1 = none ∨
+    (inner.s ≠ [] ∧ linkNext inner = (some .error, lkEmpty inner)) ∨
+    (inner.s ≠ [] ∧ (lkAfter inner).s ≠ [] ∧
+      linkNext inner = (some (.link (lkTarget inner) (lkAttrs inner)), lkNext inner)) := by
+  rw [linkNext_eq]
+  split
+  · left; rfl
+  · rename_i hne
+    have hne' : inner.s ≠ [] := by simpa using hne
+    split
+    · left; rfl
+    · rename_i c rest hc
+      split
+      · right; left; exact ⟨hne', rfl⟩
+      · right; right; exact ⟨hne', by simp [hc], rfl⟩
+
+/-- facts about one successful link step -/
+theorem link_step (inner : Sl) (h : (lkAfter inner).s ≠ []) :
+    Sub (lkTarget inner) inner ∧ Sub (lkAttrs inner) inner ∧ Sub (lkNext inner) inner ∧
+    (lkTarget inner).off + (lkTarget inner).s.length ≤ (lkAttrs inner).off ∧
+    (lkTarget inner).off + (lkTarget inner).s.length ≤ (lkNext inner).off ∧
+    (lkAttrs inner).off + (lkAttrs inner).s.length ≤ (lkNext inner).off ∧
+    (lkNext inner).s.length < inner.s.length := by
+  have s1 : Sub (lkAfter inner) inner := sub_drop _ _
+  have s2 : Sub (lkRef inner) inner := (sub_drop _ _).trans s1
+  have s3 : Sub (lkKeys inner) inner := (sub_drop _ _).trans s2
+  have t1 : Sub (lkTarget inner) ((lkRef inner).take (lkN inner)) := sub_trimEnd _ _
+  have a1 : Sub (lkAttrs inner) ((lkKeys inner).take (lkM inner)) :=
+    (sub_trimBoth _ _).trans (sub_trimEnd _ _)
+  have b1 := t1.bounds
+  have b2 := a1.bounds
+  have k1 : (lkKeys inner).off = (lkRef inner).off + min (lkN inner) (lkRef inner).s.length := rfl
+  have n1 : (lkNext inner).off = (lkKeys inner).off + min (lkM inner) (lkKeys inner).s.length := rfl
+  have ts := take_stop (lkRef inner) (lkN inner)
+  have as := take_stop (lkKeys inner) (lkM inner)
+  have to := take_off (lkRef inner) (lkN inner)
+  have ao := take_off (lkKeys inner) (lkM inner)
+  refine ⟨(t1.trans (sub_take _ _)).trans s2, (a1.trans (sub_take _ _)).trans s3,
+    (sub_drop _ _).trans s3, by omega, by omega, by omega, ?_⟩
+  have l1 : (lkNext inner).s.length ≤ (lkKeys inner).s.length := by simp [lkNext, Sl.drop]
+  have l2 : (lkKeys inner).s.length ≤ (lkRef inner).s.length := by simp [lkKeys, Sl.drop]
+  have l3 : (lkRef inner).s.length < (lkAfter inner).s.length := by
+    have : 0 < (lkAfter inner).s.length := List.length_pos_iff.mpr h
+    simp [lkRef, Sl.drop]; omega
+  have l4 : (lkAfter inner).s.length ≤ inner.s.length := by simp [lkAfter, Sl.drop]
+  omega
+
+
+theorem sub_lkEmpty (inner : Sl) : Sub (lkEmpty inner) inner :=
+  ⟨inner.s, [], by simp [lkEmpty], rfl⟩
+
+theorem linkNext_some {inner inner' : Sl} {it : Item} (h : linkNext inner = (some it, inner')) :
+    inner'.s.length < inner.s.length ∧ Sub inner' inner ∧
+    (it = .error → inner'.s = []) ∧
+    (∀ t a, it = .link t a → Sub t inner ∧ Sub a inner ∧
+      t.off + t.s.length ≤ a.off ∧ t.off + t.s.length ≤ inner'.off ∧
+      a.off + a.s.length ≤ inner'.off) := by
+  rcases linkNext_cases inner with h1 | ⟨hne, h2⟩ | ⟨hne, hafter, h3⟩
+  · rw [h] at h1; cases h1
+  · rw [h] at h2
+    injection h2 with e1 e2
+    injection e1 with e1
+    subst e1 e2
+    refine ⟨?_, sub_lkEmpty inner, fun _ => rfl, fun t a e => by cases e⟩
+    exact List.length_pos_iff.mpr hne
+  · rw [h] at h3
+    injection h3 with e1 e2
+    injection e1 with e1
+    subst e1 e2
+    obtain ⟨s1, s2, s3, o1, o2, o3, l⟩ := link_step inner hafter
+    refine ⟨l, s3, (fun e => by cases e), ?_⟩
+    intro t a e
+    injection e with e1 e2
+    subst e1 e2
+    exact ⟨s1, s2, o1, o2, o3⟩
+
+theorem linkAll_none {inner : Sl} (fuel : Nat) (h : (linkNext inner).1 = none) :
+    linkAll (fuel + 1) inner = [] := by
+  unfold linkAll
+  split
+  · rfl
+  · rename_i heq; rw [heq] at h; cases h
+
+theorem linkAll_some {inner inner' : Sl} {it : Item} (fuel : Nat)
+    (h : linkNext inner = (some it, inner')) :
+    linkAll (fuel + 1) inner = it :: linkAll fuel inner' := by
+  simp only [linkAll, h]
+
+theorem linkNext_nil {inner : Sl} (h : inner.s = []) : (linkNext inner).1 = none := by
+  rw [linkNext_eq]; simp [h]
+
+theorem linkAll_nil (fuel : Nat) {inner : Sl} (h : inner.s = []) : linkAll fuel inner = [] := by
+  cases fuel with
+  | zero => rfl
+  | succ n => exact linkAll_none n (linkNext_nil h)
+
+/-- case analysis of one iteration -/
+theorem linkAll_cases (fuel : Nat) (inner : Sl) :
+    linkAll (fuel + 1) inner = [] ∨
+    ∃ it inner', linkNext inner = (some it, inner') ∧
+      linkAll (fuel + 1) inner = it :: linkAll fuel inner' := by
+  cases h : linkNext inner with
+  | mk o inner' =>
+    cases o with
+    | none => left; exact linkAll_none fuel (by rw [h])
+    | some it => right; exact ⟨it, inner', rfl, linkAll_some fuel h⟩
+
+theorem linkAll_sub (fuel : Nat) (inner : Sl) :
+    ∀ it ∈ linkAll fuel inner, ∀ t a, it = .link t a → Sub t inner ∧ Sub a inner := by
+  induction fuel generalizing inner with
+  | zero => intro it h; cases h
+  | succ n ih =>
+    rcases linkAll_cases n inner with h | ⟨it0, inner', hn, h⟩
+    · rw [h]; intro it h; cases h
+    · rw [h]
+      obtain ⟨_, hs, _, hl⟩ := linkNext_some hn
+      intro it hm t a e
+      rcases List.mem_cons.mp hm with rfl | hm
+      · obtain ⟨s1, s2, _⟩ := hl t a e
+        exact ⟨s1, s2⟩
+      · obtain ⟨s1, s2⟩ := ih inner' it hm t a e
+        exact ⟨s1.trans hs, s2.trans hs⟩
+
+theorem linkAll_ordered (fuel : Nat) (inner : Sl) :
+    (linkAll fuel inner).Pairwise (fun x y =>
+      ∀ t a t' a', x = .link t a → y = .link t' a' →
+        t.off + t.s.length ≤ t'.off ∧
+        (a.s ≠ [] → t.off + t.s.length ≤ a.off ∧ a.off + a.s.length ≤ t'.off)) := by
+  induction fuel generalizing inner with
+  | zero => exact List.Pairwise.nil
+  | succ n ih =>
+    rcases linkAll_cases n inner with h | ⟨it0, inner', hn, h⟩
+    · rw [h]; exact List.Pairwise.nil
+    · rw [h, List.pairwise_cons]
+      refine ⟨?_, ih inner'⟩
+      obtain ⟨_, _, _, hl⟩ := linkNext_some hn
+      intro y hy t a t' a' e1 e2
+      obtain ⟨_, _, o1, o2, o3⟩ := hl t a e1
+      obtain ⟨s1, _⟩ := linkAll_sub n inner' y hy t' a' e2
+      have := s1.bounds
+      exact ⟨by omega, fun _ => ⟨o1, by omega⟩⟩
+
+theorem linkAll_error_last (fuel : Nat) (inner : Sl) (i : Nat)
+    (h : i < (linkAll fuel inner).length) (he : (linkAll fuel inner)[i] = .error) :
+    i + 1 = (linkAll fuel inner).length := by
+  induction fuel generalizing inner i with
+  | zero => simp [linkAll] at h
+  | succ n ih =>
+    rcases linkAll_cases n inner with h0 | ⟨it0, inner', hn, h0⟩
+    · rw [h0] at h; simp at h
+    · obtain ⟨_, _, herr, _⟩ := linkNext_some hn
+      simp only [h0] at he h ⊢
+      cases i with
+      | zero =>
+        simp at he
+        rw [linkAll_nil n (herr he)]
+        rfl
+      | succ j =>
+        simp at he h ⊢
+        exact ih inner' j h he
+
+theorem linkAll_fuel_indep (fuel : Nat) (inner : Sl) (hf : inner.s.length < fuel) (extra : Nat) :
+    linkAll (fuel + extra) inner = linkAll fuel inner := by
+  induction fuel generalizing inner with
+  | zero => omega
+  | succ n ih =>
+    have e : n + 1 + extra = (n + extra) + 1 := by omega
+    rw [e]
+    cases h : linkNext inner with
+    | mk o inner' =>
+      cases o with
+      | none => rw [linkAll_none _ (by rw [h]), linkAll_none _ (by rw [h])]
+      | some it =>
+        rw [linkAll_some _ h, linkAll_some _ h]
+        obtain ⟨hl, _⟩ := linkNext_some h
+        rw [ih inner' (by omega)]
+
+/-! ### attribute iterator -/
+
+def atN (inner : Sl) : Nat := scanSep ';' inner.s false
+def atStr (inner : Sl) : Sl := (inner.take (atN inner)).trimEnd (· = ';')
+def atNext (inner : Sl) : Sl := inner.drop (atN inner)
+
+theorem attrNext_eq (inner : Sl) : attrNext inner =
+    if inner.s.isEmpty then (none, inner)
+    else match findEq (atStr inner).s with
+      | some i => (some (((atStr inner).take i).trimBoth isWs,
+                         ((atStr inner).drop (i + 1)).trimBoth isWs), atNext inner)
+      | none => (some ((atStr inner).trimBoth isWs, { off := 0, s := [] }), atNext inner) := rfl
+
+theorem scanSep_pos (sep : Char) (l : List Char) (h : l ≠ []) : 1 ≤ scanSep sep l false := by
+  cases l with
+  | nil => exact absurd rfl h
+  | cons c cs =>
+    simp only [scanSep]
+    split
+    · omega
+    · split <;> omega
+
+theorem attrNext_nil {inner : Sl} (h : inner.s = []) : (attrNext inner).1 = none := by
+  rw [attrNext_eq]; simp [h]
+
+theorem attrNext_some {inner inner' : Sl} {kv : Sl × Sl} (h : attrNext inner = (some kv, inner')) :
+    inner'.s.length < inner.s.length ∧ Sub inner' inner ∧ Sub kv.1 inner ∧
+    (Sub kv.2 inner ∨ kv.2 = { off := 0, s := [] }) ∧
+    kv.1.off + kv.1.s.length ≤ inner'.off ∧
+    (kv.2.s ≠ [] → kv.1.off + kv.1.s.length ≤ kv.2.off ∧ kv.2.off + kv.2.s.length ≤ inner'.off) := by
+  rw [attrNext_eq] at h
+  split at h
+  · cases h
+  · rename_i hne
+    have hne' : inner.s ≠ [] := by simpa using hne
+    have hpos : 0 < inner.s.length := List.length_pos_iff.mpr hne'
+    have hn : 1 ≤ atN inner := scanSep_pos _ _ hne'
+    have s0 : Sub (atStr inner) (inner.take (atN inner)) := sub_trimEnd _ _
+    have s1 : Sub (atStr inner) inner := s0.trans (sub_take _ _)
+    have b0 := s0.bounds
+    have ts := take_stop inner (atN inner)
+    have to := take_off inner (atN inner)
+    have no : (atNext inner).off = inner.off + min (atN inner) inner.s.length := rfl
+    have nl : (atNext inner).s.length < inner.s.length := by
+      simp [atNext, Sl.drop]; omega
+    split at h
+    · rename_i i hi
+      injection h with e1 e2
+      injection e1 with e1
+      subst e1 e2
+      have k1 : Sub (((atStr inner).take i).trimBoth isWs) ((atStr inner).take i) := sub_trimBoth _ _
+      have v1 : Sub (((atStr inner).drop (i + 1)).trimBoth isWs) ((atStr inner).drop (i + 1)) :=
+        sub_trimBoth _ _
+      have kb := k1.bounds
+      have vb := v1.bounds
+      have ks := take_stop (atStr inner) i
+      have ko := take_off (atStr inner) i
+      have vs := drop_stop (atStr inner) (i + 1)
+      have vo := drop_off (atStr inner) (i + 1)
+      refine ⟨nl, sub_drop _ _, (k1.trans (sub_take _ _)).trans s1,
+        Or.inl ((v1.trans (sub_drop _ _)).trans s1), ?_, fun _ => ⟨?_, ?_⟩⟩
+      · dsimp only; omega
+      · dsimp only; omega
+      · dsimp only; omega
+    · injection h with e1 e2
+      injection e1 with e1
+      subst e1 e2
+      have k1 : Sub ((atStr inner).trimBoth isWs) (atStr inner) := sub_trimBoth _ _
+      have kb := k1.bounds
+      refine ⟨nl, sub_drop _ _, k1.trans s1, Or.inr rfl, ?_, fun hh => absurd rfl hh⟩
+      dsimp only; omega
+
+theorem attrAll_none {inner : Sl} (fuel : Nat) (h : (attrNext inner).1 = none) :
+    attrAll (fuel + 1) inner = [] := by
+  unfold attrAll
+  split
+  · rfl
+  · rename_i heq; rw [heq] at h; cases h
+
+theorem attrAll_some {inner inner' : Sl} {kv : Sl × Sl} (fuel : Nat)
+    (h : attrNext inner = (some kv, inner')) :
+    attrAll (fuel + 1) inner = kv :: attrAll fuel inner' := by
+  simp only [attrAll, h]
+
+theorem attrAll_cases (fuel : Nat) (inner : Sl) :
+    attrAll (fuel + 1) inner = [] ∨
+    ∃ kv inner', attrNext inner = (some kv, inner') ∧
+      attrAll (fuel + 1) inner = kv :: attrAll fuel inner' := by
+  cases h : attrNext inner with
+  | mk o inner' =>
+    cases o with
+    | none => left; exact attrAll_none fuel (by rw [h])
+    | some kv => right; exact ⟨kv, inner', rfl, attrAll_some fuel h⟩
+
+theorem attrAll_sub (fuel : Nat) (inner : Sl) :
+    ∀ kv ∈ attrAll fuel inner, Sub kv.1 inner ∧ (Sub kv.2 inner ∨ kv.2 = { off := 0, s := [] }) ∧
+      (kv.2.s ≠ [] → kv.1.off + kv.1.s.length ≤ kv.2.off) := by
+  induction fuel generalizing inner with
+  | zero => intro kv h; cases h
+  | succ n ih =>
+    rcases attrAll_cases n inner with h | ⟨kv0, inner', hn, h⟩
+    · rw [h]; intro kv h; cases h
+    · rw [h]
+      obtain ⟨_, hs, h1, h2, _, h3⟩ := attrNext_some hn
+      intro kv hm
+      rcases List.mem_cons.mp hm with rfl | hm
+      · exact ⟨h1, h2, fun hh => (h3 hh).1⟩
+      · obtain ⟨s1, s2, s3⟩ := ih inner' kv hm
+        exact ⟨s1.trans hs, s2.imp (fun s => s.trans hs) id, s3⟩
+
+theorem attrAll_ordered (fuel : Nat) (inner : Sl) :
+    (attrAll fuel inner).Pairwise (fun x y =>
+      (x.1.s ≠ [] → y.1.s ≠ [] → x.1.off + x.1.s.length ≤ y.1.off) ∧
+      (x.2.s ≠ [] → y.1.s ≠ [] → x.2.off + x.2.s.length ≤ y.1.off) ∧
+      (x.2.s ≠ [] → y.2.s ≠ [] → x.2.off + x.2.s.length ≤ y.2.off)) := by
+  induction fuel generalizing inner with
+  | zero => exact List.Pairwise.nil
+  | succ n ih =>
+    rcases attrAll_cases n inner with h | ⟨kv0, inner', hn, h⟩
+    · rw [h]; exact List.Pairwise.nil
+    · rw [h, List.pairwise_cons]
+      refine ⟨?_, ih inner'⟩
+      obtain ⟨_, _, _, _, o1, o2⟩ := attrNext_some hn
+      intro y hy
+      obtain ⟨s1, s2, _⟩ := attrAll_sub n inner' y hy
+      have b1 := s1.bounds
+      refine ⟨fun _ _ => by omega, fun hx _ => by have := (o2 hx).2; omega, fun hx hy2 => ?_⟩
+      rcases s2 with s2 | s2
+      · have b2 := s2.bounds
+        have := (o2 hx).2
+        omega
+      · rw [s2] at hy2; exact absurd rfl hy2
+
+theorem attrAll_fuel_indep (fuel : Nat) (inner : Sl) (hf : inner.s.length < fuel) (extra : Nat) :
+    attrAll (fuel + extra) inner = attrAll fuel inner := by
+  induction fuel generalizing inner with
+  | zero => omega
+  | succ n ih =>
+    have e : n + 1 + extra = (n + extra) + 1 := by omega
+    rw [e]
+    cases h : attrNext inner with
+    | mk o inner' =>
+      cases o with
+      | none => rw [attrAll_none _ (by rw [h]), attrAll_none _ (by rw [h])]
+      | some it =>
+        rw [attrAll_some _ h, attrAll_some _ h]
+        obtain ⟨hl, _⟩ := attrNext_some h
+        rw [ih inner' (by omega)]
+
+end P
+
 theorem toCow_eq_unquote (s : List Char) : toCow s = unquote s := by
-  sorry
+  unfold toCow unquote
+  split
+  · rename_i rest
+    split
+    · rfl
+    · rename_i h
+      rw [P.unqQuoted_noesc]
+      intro hm
+      apply h
+      simp [hm]
+  · rfl
 
 /-- every yielded target and attribute block is a slice of the input -/
 theorem parseLinks_slices (input : List Char) :
     ∀ it ∈ parseLinks input, ∀ t a, it = .link t a → IsSlice input t ∧ IsSlice input a := by
-  sorry
+  intro it hm t a e
+  obtain ⟨s1, s2⟩ := P.linkAll_sub _ _ it hm t a e
+  exact ⟨(P.isSlice_iff _ _).mpr s1, (P.isSlice_iff _ _).mpr s2⟩
 
 /-- … in left-to-right order: each link's target precedes its attribute block,
 which precedes the next link's target -/
@@ -31,19 +426,19 @@ theorem parseLinks_ordered (input : List Char) :
     (parseLinks input).Pairwise (fun x y =>
       ∀ t a t' a', x = .link t a → y = .link t' a' →
         t.stop ≤ t'.off ∧ (a.s ≠ [] → t.stop ≤ a.off ∧ a.stop ≤ t'.off)) := by
-  sorry
+  exact P.linkAll_ordered _ _
 
 /-- nothing is yielded after the first reported error -/
 theorem parseLinks_error_last (input : List Char) (i : Nat) (h : i < (parseLinks input).length)
     (he : (parseLinks input)[i] = .error) : i + 1 = (parseLinks input).length := by
-  sorry
+  exact P.linkAll_error_last _ _ i h he
 
 /-- the fuel bound is not what ends the iteration: with any larger fuel the
 result is the same (every step that yields an item consumes at least one
 character), i.e. iteration terminates on its own -/
 theorem linkAll_fuel (input : List Char) (extra : Nat) :
     linkAll (input.length + 1 + extra) { off := 0, s := input } = parseLinks input := by
-  sorry
+  exact P.linkAll_fuel_indep (input.length + 1) _ (Nat.lt_succ_self _) extra
 
 /-- attribute keys and raw values are slices of the attribute block's input (or
 the empty literal), keys before values, attributes left to right -/
@@ -53,17 +448,28 @@ theorem parseAttrs_slices (input : List Char) (a : Sl) (ha : IsSlice input a) :
       (kv.1.s ≠ [] → kv.2.s ≠ [] → kv.1.stop ≤ kv.2.off) ∧
       (kv.1.s ≠ [] → a.off ≤ kv.1.off ∧ kv.1.stop ≤ a.stop) ∧
       (kv.2.s ≠ [] → a.off ≤ kv.2.off ∧ kv.2.stop ≤ a.stop) := by
-  sorry
+  intro kv hm
+  have ha' := (P.isSlice_iff _ _).mp ha
+  obtain ⟨s1, s2, s3⟩ := P.attrAll_sub _ _ kv hm
+  have b1 := s1.bounds
+  refine ⟨Or.inl ((P.isSlice_iff _ _).mpr (s1.trans ha')), ?_, fun _ h2 => s3 h2,
+    fun _ => b1, fun h2 => ?_⟩
+  · rcases s2 with s2 | s2
+    · exact Or.inl ((P.isSlice_iff _ _).mpr (s2.trans ha'))
+    · right; rw [s2]; rfl
+  · rcases s2 with s2 | s2
+    · exact s2.bounds
+    · rw [s2] at h2; exact absurd rfl h2
 
 theorem parseAttrs_ordered (a : Sl) :
     (parseAttrs a).Pairwise (fun x y =>
       (x.1.s ≠ [] → y.1.s ≠ [] → x.1.stop ≤ y.1.off) ∧
       (x.2.s ≠ [] → y.1.s ≠ [] → x.2.stop ≤ y.1.off) ∧
       (x.2.s ≠ [] → y.2.s ≠ [] → x.2.stop ≤ y.2.off)) := by
-  sorry
+  exact P.attrAll_ordered _ _
 
 theorem attrAll_fuel (a : Sl) (extra : Nat) :
     attrAll (a.s.length + 1 + extra) a = parseAttrs a := by
-  sorry
+  exact P.attrAll_fuel_indep (a.s.length + 1) a (Nat.lt_succ_self _) extra
 
 end CoapLite.Link
